@@ -219,7 +219,7 @@ def run(ck, prog, tier, load):
                         if e_calls(e, r"to_digit$"):
                             why = "to_digit(16) yields a value < 16"
                         ck.ob("C19-a.narrowing-cast", key, why is not None, b, bb, "narrowing cast of a wire integer %s as %s: %s" % (short(e, 3), rv["to"], why or "NOT clamped"))
-    ck.anchor("C19-a", n_sub, 12, "overflow-checked subtractions in peer-facing parsing code")
+    ck.anchor("C19-a", n_sub, 6, "overflow-checked subtractions in peer-facing parsing code")
     ck.anchor("C19-a", n_add, 2, "overflow-checked additions/multiplications on wire integers")
 
     # ---- (c) fixed-offset slicing of peer data is length-guarded ------------------------------
@@ -291,7 +291,7 @@ def run(ck, prog, tier, load):
             ok, wit = guarded_by(b, bb, enough)
             ck.ob("C19-c.slice-length-guarded", "%s|%s|%s" % (fn, canon(recv, 3), canon(idx, 3)), ok, b, bb,
                   "slicing `%s[%s]` needs %s%d bytes; every path must cross a length test establishing that" % (short(recv, 2), short(idx, 3), (short(X, 2) + " + ") if X is not None else "", k), witness=b.path_lines(wit))
-    ck.anchor("C19-c", n_sl, 6, "fixed-offset slice operations with a related length test")
+    ck.anchor("C19-c", n_sl, 3, "fixed-offset slice operations with a related length test")
     ck.note("C19-c: %d fixed-offset slice sites had no length comparison on the same base in their function and are not decided" % n_skip)
 
     # ---- (b) unsafe header writer -------------------------------------------------------------
